@@ -10,7 +10,7 @@
    [conn_addr host c a] = "tcp://host:port" / "ipc://path", [bound_addr c a] = "tcp://*:port" /
    "ipc://path" for the same allocation [a].  All theorems hold for every list of tasks, every
    declaration list and every allocation: no bound on sizes. *)
-From Verif Require Import Common Channels Channels_proofs ChannelsPlacement_proofs.
+From Verif Require Import Common Channels Channels_proofs ChannelsPlacement_proofs ChannelsMonitor_proofs.
 From Verif Require Gen_Placement Placement Placement_proofs.
 Open Scope N_scope.
 
@@ -212,6 +212,90 @@ Example C13_port_from_offer_nonvacuous :
               Placement_proofs.pvalid (Some [(9000, 9002)]) /\ alloc_agrees pf_task [(0, 9000); (2, 9001)].
 Proof. exact pf_nonvacuous. Qed.
 
+(* ---- bridge to the monitor [mon13] (the property as evaluated on what the implementation did).
+   (1) On the case the model itself produces - the workflow, the model's local bind maps and
+   chans.* properties (or its refusal), the ports of the task's TCP endpoints - the monitor
+   reports nothing, for every well-formed workflow ([wf_ws]: [wf_env] on its tasks and IPC
+   paths of different tasks different) - and for every pure-layer input.  So a monitor code
+   on the implementation means the implementation left the model (or well-formedness).
+   (2) Read backwards, each code refutes a clause: the soundness theorems below say what a
+   silent monitor entails for the observed run. ---- *)
+Theorem C13_monitor_on_model : forall ws, wf_ws ws -> mon13 (model_case ws) = 0.
+Proof. exact monitor_silent_on_model. Qed.
+Print Assumptions C13_monitor_on_model.
+
+Theorem C13_monitor_on_model_pure :
+  (forall i bm, mon13 (CInFmq i bm (inbound_props bm i)) = 0) /\
+  (forall o bm, mon13 (COutFmq o bm (outbound_props bm o)) = 0) /\
+  (forall hp lp, mon13 (CMergeIn hp lp (merge i_name hp lp)) = 0) /\
+  (forall hp lp, mon13 (CMergeOut hp lp (merge o_name hp lp)) = 0) /\
+  (forall e host f, mon13 (CEndpoint e host f (ep_address e, to_target host e, to_bound e, ep_eqb e f)) = 0).
+Proof. exact monitor_silent_on_model_pure. Qed.
+Print Assumptions C13_monitor_on_model_pure.
+
+(* a silent monitor on an accepted configuration: every outbound / inbound check of every task
+   with channel configuration passed (codes 1-7, 11, 15), no alias declared twice in a task
+   (9) or by matching channels of two tasks (8), no static channel registered (5) *)
+Theorem C13_monitor_silent_accepted : forall ws os ports,
+  forallb w_clean ws = true -> mon_env ws (Some os) ports = 0 ->
+  length ws = length os /\
+  let wpp := combine (combine ws (map snd os)) (ports ++ repeat [] (length ws)) in
+  let bs := binders_of wpp in
+  (forall w pr pt, In (w, pr, pt) wpp -> w_chans w = true ->
+     (forall d, In d (eff_out w) -> check_out bs pr d = 0) /\
+     (forall e, In e (eff_in w) -> check_in pt pr e = 0)) /\
+  (forall w, In w ws -> NoDup (globals_of (eff_in w))) /\
+  cross_dup (map free_aliases ws) = false /\
+  (forall w loc e, In (w, loc) (combine ws (map fst os)) -> In e (eff_in w) -> i_target e <> [] ->
+     assoc (i_name e) loc = None).
+Proof. exact monitor_silent_sound. Qed.
+Print Assumptions C13_monitor_silent_accepted.
+
+(* a passed outbound check: told method connect; an explicit target unchanged with the declared
+   transport; otherwise some channel that the target names (and that takes part in matching)
+   agrees with the address and transport told *)
+Theorem C13_monitor_outbound_sound : forall bs pr d,
+  check_out bs pr d = 0 ->
+  exists addr tr, assoc (o_name d) pr = Some (addr, m_connect, tr) /\
+    (is_explicit (o_target d) = true -> addr = o_target d /\ tr = o_tr d) /\
+    (is_explicit (o_target d) = false ->
+     exists pt w prb e, In (pt, w, prb, e) bs /\ target_hits (o_target d) (w_path w) e = true /\
+                        good_hit addr tr (pt, w, prb, e) = true).
+Proof. exact check_out_sound. Qed.
+Print Assumptions C13_monitor_outbound_sound.
+
+(* "agrees": the binder was told method bind, the same transport, and an address that names the
+   same endpoint - tcp://*:P against tcp://<binder's host>:P, or the same ipc:// path *)
+Theorem C13_monitor_agreement_sound : forall addr tr pt w pr e,
+  w_chans w = true -> good_hit addr tr (pt, w, pr, e) = true ->
+  exists baddr, assoc (i_name e) pr = Some (baddr, m_bind, tr) /\
+    ((exists ps, baddr = s_tcp ++ s_star ++ s_colon ++ ps /\ addr = s_tcp ++ w_host w ++ s_colon ++ ps) \/
+     (exists path, baddr = s_ipc ++ path /\ addr = baddr)).
+Proof. exact good_hit_sound. Qed.
+Print Assumptions C13_monitor_agreement_sound.
+
+(* a passed inbound check: told method bind; an explicit target unchanged; otherwise no target
+   at all, the declared transport, and an ipc:// path resp. tcp://*:P with P among the ports
+   requested for the task *)
+Theorem C13_monitor_inbound_sound : forall pt pr e,
+  check_in pt pr e = 0 ->
+  exists baddr btr, assoc (i_name e) pr = Some (baddr, m_bind, btr) /\
+    (is_explicit (i_target e) = true -> baddr = i_target e /\ btr = i_tr e) /\
+    (is_explicit (i_target e) = false ->
+       i_target e = [] /\ btr = i_tr e /\
+       (i_ipc e = true -> exists path, baddr = s_ipc ++ path) /\
+       (i_ipc e = false -> exists p, In p pt /\ baddr = s_tcp ++ s_star ++ s_colon ++ dec p)).
+Proof. exact check_in_sound. Qed.
+Print Assumptions C13_monitor_inbound_sound.
+
+(* a silent monitor on a refused configuration (code 12): one of the causes the property names
+   is present in the declarations *)
+Theorem C13_monitor_silent_refused : forall ws ports,
+  forallb w_clean ws = true -> mon_env ws None ports = 0 ->
+  unmatched_in ws = true \/ invalid_in ws = true \/ alias_twice ws = true.
+Proof. exact monitor_silent_refused_sound. Qed.
+Print Assumptions C13_monitor_silent_refused.
+
 (* the witnesses of the three former findings are refused by the repaired model *)
 Example C13_former_witnesses_refused :
   configure wit1_tasks = None /\ configure_wf wit2_ws = None /\ configure_wf wit3_ws = None.
@@ -223,17 +307,30 @@ Example C13_nonvacuous :
   let b := mkW [[119];[98]] [[mkIn s_in0 s_default [] s_ga false]; []] [[]; []] true [] [] s_h1 [(9000, [])] in
   let t := mkW [[119];[99]] [[]; []] [[mkOut s_out0 s_default [119;46;98;58;105;110;48];
                                       mkOut s_in1 s_default [58;58;103;97]]; []] true [] [] s_h2 [] in
-  wf_env (map task_of [b; t]) /\ names_ok (task_of b) /\ names_ok (task_of t) /\
+  wf_env (map task_of [b; t]) /\ wf_ws [b; t] /\ forallb w_clean [b; t] = true /\
+  names_ok (task_of b) /\ names_ok (task_of t) /\
   configure_wf [b; t] =
     Some [ [(s_in0, ([116;99;112;58;47;47;42;58;57;48;48;48], m_bind, s_default))];
            [(s_out0, ([116;99;112;58;47;47;104;49;58;57;48;48;48], m_connect, s_default));
             (s_in1, ([116;99;112;58;47;47;104;49;58;57;48;48;48], m_connect, s_default))] ].
 Proof.
-  cbv zeta. split; [|split; [|split]].
-  - split.
+  cbv zeta.
+  match goal with |- ?WF /\ _ => assert (W : WF) end.
+  { split.
     + cbn. constructor; [intros [H|[]]; discriminate|]. constructor; [intros []|constructor].
     + intros x [<-|[<-|[]]]; cbn; (split; [discriminate|]); (split; [|split; discriminate]);
-        unfold no_colon; cbn; intuition discriminate.
+        unfold no_colon; cbn; intuition discriminate. }
+  split; [exact W|]. split; [|split; [|split; [|split]]].
+  - split; [exact W|]. intros j1 j2 w1 w2 i1 i2 c1 c2 H1 H2 Ne N1 N2 _ _.
+    assert (E : forall i c, nth_error (w_in (mkW [[119];[99]] [[]; []] [[mkOut s_out0 s_default [119;46;98;58;105;110;48];
+                 mkOut s_in1 s_default [58;58;103;97]]; []] true [] [] s_h2 [])) i = Some c -> False)
+      by (intros [|i] c X; discriminate X).
+    destruct j1 as [|[|j1]], j2 as [|[|j2]]; cbn [nth_error] in H1, H2;
+      try (exfalso; apply Ne; reflexivity);
+      try (inversion H2; subst w2; exfalso; exact (E _ _ N2));
+      try (inversion H1; subst w1; exfalso; exact (E _ _ N1));
+      try (destruct j2; discriminate H2); try (destruct j1; discriminate H1).
+  - reflexivity.
   - apply wit_names_ok; reflexivity.
   - apply wit_names_ok; reflexivity.
   - vm_compute. reflexivity.
